@@ -510,8 +510,9 @@ func init() {
 		hdrUnit(c)
 		hdrWire(c)
 		hdrLegacy(c)
+		hdrAlphaMerge(c)
 		hdrE2E(c)
-		c.close([]string{"canon:valid", "canon:invalid", "unit:req", "unit:resp", "wire:req", "legacy:flags",
+		c.close([]string{"alpha:merge", "canon:valid", "canon:invalid", "unit:req", "unit:resp", "wire:req", "legacy:flags",
 			"sess:nil", "sess:cookie-like", "sess:bearer-like", "sess:basic-like", "sess:random",
 			"monitor:spoof-stripped", "monitor:preserved-client-kept", "monitor:nosession-empty", "cfg:shared-canonical-key",
 			"e2e:cookie", "e2e:bearer", "e2e:basic", "e2e:bypass-nosession", "e2e:bypass-session", "e2e:authonly-202",
@@ -723,6 +724,54 @@ func hdrWire(c *suiteCtx) {
 			c07Check(c, "wire-request", cfg, s, all, true, got)
 		}
 		mu.Unlock()
+	}
+}
+
+// hdrAlphaMerge: the structured (alpha) configuration reaches the proxy's options unchanged — every header definition,
+// including a "strip only" entry (a name without value sources), in order, with its preserve flag
+func hdrAlphaMerge(c *suiteCtx) {
+	r := c.rng.fork()
+	for i := 0; i < 200; i++ {
+		mk := func() []options.Header {
+			var hs []options.Header
+			for n := r.intn(6); n > 0; n-- {
+				h := options.Header{Name: r.pick([]string{"X-Forwarded-User", "x-forwarded-email", "Authorization", "X-Strip-Only", "X-Custom", "X-Forwarded-Groups"}), PreserveRequestValue: r.intn(3) == 0}
+				switch r.intn(3) {
+				case 0: // strip only: no value sources
+				case 1:
+					h.Values = []options.HeaderValue{{ClaimSource: &options.ClaimSource{Claim: r.pick([]string{"user", "email", "groups"})}}}
+				default:
+					h.Values = []options.HeaderValue{{SecretSource: &options.SecretSource{Value: []byte("s")}}, {ClaimSource: &options.ClaimSource{Claim: "email", Prefix: "p-"}}}
+				}
+				hs = append(hs, h)
+			}
+			return hs
+		}
+		a := &options.AlphaOptions{InjectRequestHeaders: mk(), InjectResponseHeaders: mk()}
+		o := options.NewOptions()
+		a.MergeInto(o)
+		c.casen(fmt.Sprintf("alpha-merge|%d", i), "")
+		c.count("alpha:merge")
+		for _, side := range []struct {
+			name     string
+			in, out  []options.Header
+		}{{"injectRequestHeaders", a.InjectRequestHeaders, o.InjectRequestHeaders}, {"injectResponseHeaders", a.InjectResponseHeaders, o.InjectResponseHeaders}} {
+			same := len(side.in) == len(side.out)
+			for k := 0; same && k < len(side.in); k++ {
+				same = side.in[k].Name == side.out[k].Name && side.in[k].PreserveRequestValue == side.out[k].PreserveRequestValue && len(side.in[k].Values) == len(side.out[k].Values)
+			}
+			if !same {
+				names := func(hs []options.Header) []string {
+					var out []string
+					for _, h := range hs {
+						out = append(out, fmt.Sprintf("%s(%d values, preserve=%v)", h.Name, len(h.Values), h.PreserveRequestValue))
+					}
+					return out
+				}
+				c.violation("C07", "the structured configuration's "+side.name+" list does not reach the proxy options unchanged (a header the operator configured — e.g. a strip-only entry — is lost, so it is no longer stripped)",
+					map[string]interface{}{"configured": names(side.in), "in_force": names(side.out)})
+			}
+		}
 	}
 }
 
